@@ -19,8 +19,9 @@ from lxml import etree
 from simkit import xmlref
 from simkit.kernel import HarnessError, Violation
 
-ALPHABET = ["a", "b", "Z", " ", " ", " ", "\t", "\n", "<", ">", "&", '"', "'", "é", "漢", "\U0001F600", "x1", "  ", "   "]
-WORDS = ["alpha", "beta", "gamma", "delta", "le", "chat", "Ab", "x", "été", "漢字"]
+ALPHABET = ["a", "b", "Z", " ", " ", " ", "\t", "\n", "<", ">", "&", '"', "'", "é", "漢", "\U0001F600", "x1", "  ", "   ",
+            "\u00a0", "\u202f", "\u3000", "\u2003"]  # NBSP & co: white space for Python's \s, plain characters for ODF
+WORDS = ["alpha", "beta", "gamma", "delta", "le", "chat", "Ab", "x", "été", "漢字", "10\u00a0000", "n\u202fo", "全\u3000角"]
 
 
 def lx(el):
@@ -94,6 +95,8 @@ class TextEngine:
         self.n_ws = 0
         self.n_restart = 0
         self.doc = None  # C20
+        self.host = None  # C05: the paragraph the element under test sits in (or None)
+        self.host_model = None
         self.n_fill = 0
         self.n_marks = 0
 
@@ -149,6 +152,12 @@ class TextEngine:
         if self.prop == "C05":
             op = {"op": "init", "kind": rng.choice(["Paragraph", "Paragraph", "Header", "Span"], "kind")}
             op["text"] = self._string(rng) if rng.chance(0.6, "init_text") else ""
+            if rng.chance(0.3, "hosted"):
+                # the element lives inside a host paragraph, between other text, and is
+                # reached through the host (children / get_spans): appends to it must leave
+                # the text around it alone
+                op["kind"] = "Span"
+                op["host"] = {"pre": rng.choice(["", "pre", "pre "], "hpre"), "post": rng.choice(["post", " post", "", "x"], "hpost")}
             return op
         if self.prop == "C09":
             return {"op": "init", "kind": rng.choice(["Paragraph", "Paragraph", "Header"], "kind"), "text": self._sentence(rng)}
@@ -158,7 +167,14 @@ class TextEngine:
         if self.prop == "C05":
             if rng.chance(self.cfg["p_restart"], "restart?"):
                 return {"op": "restart"}
-            return {"op": "append", "chunk": self._string(rng, max(1, self.cfg["max_len"] // 2)), "via": rng.choice(["append_plain_text", "append"], "via")}
+            via = rng.weighted([("append_plain_text", 4), ("append", 4), ("element", 2), ("second_handle", 1.5 if self.host is not None else 0)], "via")
+            op = {"op": "append", "chunk": self._string(rng, max(1, self.cfg["max_len"] // 2)), "via": via}
+            if via == "element":
+                # the same content given as an element: a tab, a line break, n blanks, a span of text
+                k = rng.choice(["tab", "lb", "spacer", "span"], "elkind")
+                op["el"] = k
+                op["chunk"] = {"tab": "\t", "lb": "\n", "spacer": " " * rng.randint(1, 3, "nsp"), "span": rng.choice(WORDS, "spanword")}[k]
+            return op
         if self.prop == "C09":
             return self._gen_c09(rng)
         return self._gen_c20(rng)
@@ -202,17 +218,39 @@ class TextEngine:
                 self.el = self._make(op["kind"], op["text"])
                 self.model = op["text"]
                 added = op["text"]
+                if op.get("host"):
+                    from odfdo import Paragraph
+
+                    h = op["host"]
+                    self.host = Paragraph(h["pre"])
+                    self.host.append(self.el)
+                    # what follows the span is its tail in the XML
+                    lx(self.el).tail = h["post"] or None
+                    self.host_model = (h["pre"], h["post"])
+                    self.el = self.host.get_spans()[0]  # reached through the host
             elif name == "append":
                 added = op["chunk"]
-                if op["via"] == "append":
+                via = op["via"]
+                if via == "append":
                     self.el.append(added)
+                elif via == "element":
+                    from odfdo import LineBreak, Spacer, Span, Tab
+
+                    k = op["el"]
+                    self.el.append({"tab": Tab, "lb": LineBreak}[k]() if k in ("tab", "lb") else (Spacer(len(added)) if k == "spacer" else Span(added)))
+                elif via == "second_handle" and self.host is not None:
+                    self.host.get_spans()[0].append_plain_text(added)  # another wrapper of the same element
                 else:
                     self.el.append_plain_text(added)
                 self.model += added
                 self.n_ops += 1
             else:
                 added = ""
-                self.el = Element.from_tag(self.el.serialize())
+                if self.host is not None:
+                    self.host = Element.from_tag(self.host.serialize())
+                    self.el = self.host.get_spans()[0]
+                else:
+                    self.el = Element.from_tag(self.el.serialize())
                 self.n_restart += 1
         except Exception as e:
             self._outcome = name + ":exc"
@@ -221,7 +259,10 @@ class TextEngine:
             self.n_ws += 1
         m = self.model
         # trigger features
+        if self.host is not None:
+            feats.append("hosted")
         if name == "append":
+            feats.append("via:" + op["via"] + (":" + op["el"] if op.get("el") else ""))
             if added and not added.strip(" "):
                 feats.append("chunk_only_spaces")
             if added[:1] == " " and m[: len(m) - len(added)][-1:] == " ":
@@ -271,6 +312,11 @@ class TextEngine:
             return [Violation("C05", "reparse", opname, feats, None, f"after serialize + from_tag the text is {bt!r}, expected {m!r}")]
         if type(back) is not type(el):
             return [Violation("C05", "reparse-class", opname, feats, None, f"{type(el).__name__} came back as {type(back).__name__}")]
+        if self.host is not None:
+            want = self.host_model[0] + m + self.host_model[1]
+            got = xmlref.raw_text(xmlref.reparse(lx(self.host)))
+            if got != want:
+                return [Violation("C05", "host-text-changed", opname, feats, None, f"the paragraph holding the element reads {got!r}, expected {want!r}")]
         return []
 
     # ================================================================== C09
